@@ -14,10 +14,12 @@ RULE = ("graph cases: every directed graph (self-loops included) on <=3 labelled
         "<=4 constructed objects), links (apply_on='instantiate') as a sequence of distinct (source component, target object) "
         "pairs such that every proper prefix is acyclic (the last link may close a cycle and must then be rejected); quick: all "
         "such sequences of length <=2 over every layout with <=3 objects, all lengths over the 1- and 2-object layouts, and a "
-        "seeded sample of longer ones over all layouts incl. 4 objects; thorough: every sequence over every layout with <=3 "
+        "seeded sample of longer ones over all layouts incl. 4 objects (120 walks where a layout nests three deep, else 30); thorough: every sequence over every layout with <=3 "
         "objects, every acyclic sequence over four class groups (GGGG: all 543 DAGs in all declaration orders, each also with "
         "one seeded cycle-closing link appended), 4000 sampled sequences over each of SN+G+G, GN+G+S, SN+GN, SNN+G, GNN+S and "
-        "300 over each other 4-object layout; prefix-name cases: the layouts with 2-3 declarations re-run with component names "
+        "300 over each other 4-object layout; a source is the whole object or one of its attributes at / an / az / ae / af "
+        "(a marker object, None, 0, '', False: falsy values must be handed on like any other), 15% of the links get a second "
+        "source from the same component (compute_fn(s.x, s.y)); prefix-name cases: the layouts with 2-3 declarations re-run with component names "
         "of which some are string prefixes of others (schemes a/ab/b, a/ab/abc, a/a_b/ab, ba/b/a; the permutations of a scheme "
         "are the declaration orders of the names): quick: every link sequence of length <=2 over G G G, S S S, G S G, G G, "
         "S G in all 6 permutations of a/ab/b plus one seeded permutation of each other scheme, one seeded renaming of every "
@@ -261,8 +263,9 @@ def link_cases(rng, tier):
                 seqs, units = link_sequences(decls, 2)
                 more, _ = link_sequences(decls, 6, rng, 12)
                 seqs += more
-            else:
-                seqs, units = link_sequences(decls, 7, rng, 30)
+            else:   # three nesting levels (group > class-typed argument > nested object) get more walks
+                deep = any(sh in ("GNN", "SNN") for _, sh in decls)
+                seqs, units = link_sequences(decls, 7, rng, 120 if deep else 30)
         else:
             if nu <= 3:
                 seqs, units = link_sequences(decls, 8)
